@@ -19,17 +19,91 @@ RULE = ('hierarchy of 2-7 branches (depth <=3) with distinctly valued leaves; a 
         'increment 2^i; non-trivial = >=2 ports and (a ".." segment, a remap, a glob with children, or two '
         'variables on one node); distinct = distinct case spec')
 PLAN = {'quick': {'n': 20000, 'min_cases': 1000}, 'thorough': {'n': 200000, 'min_cases': 20000}}
-REQUIRED_ORACLES = ['read_is_node_value', 'write_lands_on_node', 'no_other_node_changes', 'colliding_updates_all_applied']
+REQUIRED_ORACLES = ['read_is_node_value', 'write_lands_on_node', 'no_other_node_changes', 'colliding_updates_all_applied',
+                    'collision_all_applied']
 ANCHORS = ['vivarium.core.store:Store._topology_ports', 'vivarium.core.store:Store._establish_path',
            'vivarium.core.store:Store.outer_path', 'vivarium.core.store:Store.schema_topology',
            'vivarium.core.store:Store.build_topology_views', 'vivarium.library.topology:inverse_topology',
            'vivarium.library.topology:normalize_path', 'vivarium.library.dict_utils:deep_merge_multi_update',
            'vivarium.core.store:Store.apply_update']
 ASSUMPTIONS = ['well-formed topologies: every port is mentioned; a port mapped to a dictionary without _path lists every variable',
-               'all variables use the default accumulate updater on integers']
+               'generated topologies: all variables use the default accumulate updater on integers; shared-node family: a log updater (keeps every update) or set']
+
+
+FALSY_POOL = [0, 0.0, False, '', [], 3, 'x', True, 7.5]
+
+
+def gen_shared(r):
+    """2-4 port variables of one process wired to ONE node whose updater keeps every update it is given
+    (a log); the updates include falsy values."""
+    n = r.randint(2, 4)
+    return {'family': 'shared_node', 'n': n, 'values': [copy.deepcopy(r.choice(FALSY_POOL)) for _ in range(n)],
+            'node': r.choice([['t'], ['b', 't'], ['b', 'c', 't']]), 'pdepth': r.randint(0, 2),
+            'form': r.choice(['leaf_ports', 'dict_port', 'dict_port_path']), 'updater': r.choice(['log', 'log', 'set'])}
+
+
+def _log_updater(current, update):
+    return current + [update]
+
+
+def run_shared(spec):
+    from vivarium.core.engine import Engine
+    from vivarium.core.process import Process
+    V = Viol()
+    node = tuple(spec['node'])
+    ploc = tuple(['q%d' % k for k in range(spec['pdepth'])])
+    rel = tuple(['..'] * len(ploc)) + node
+    n = spec['n']
+    leaf = {'_default': [] if spec['updater'] == 'log' else 'init', '_updater': _log_updater if spec['updater'] == 'log' else 'set'}
+    if spec['form'] == 'leaf_ports':
+        schema = {'a%d' % k: dict(leaf) for k in range(n)}
+        topology = {'a%d' % k: rel for k in range(n)}
+        update = {'a%d' % k: copy.deepcopy(spec['values'][k]) for k in range(n)}
+    else:
+        schema = {'D': {'v%d' % k: dict(leaf) for k in range(n)}}
+        if spec['form'] == 'dict_port':
+            topology = {'D': dict({'v%d' % k: rel for k in range(n)})}
+        else:
+            topology = {'D': dict({'_path': rel[:-1]}, **{'v%d' % k: (rel[-1],) for k in range(n)})}
+        update = {'D': {'v%d' % k: copy.deepcopy(spec['values'][k]) for k in range(n)}}
+
+    class Many(Process):
+        def ports_schema(self):
+            return copy.deepcopy(schema)
+
+        def next_update(self, timestep, states):
+            return copy.deepcopy(update)
+    procs, tops = {'many': Many({'timestep': 1.0})}, {'many': topology}
+    for k in reversed(ploc):
+        procs, tops = {k: procs}, {k: tops}
+    try:
+        e = Engine(processes=procs, topology=tops, display_info=False, emitter='null')
+        e.update(1.0)
+        st = e.state.get_value()
+        got = st
+        for k in node:
+            got = got[k]
+    except Exception as ex:
+        import traceback
+        V.check('collision_all_applied', False, ('shared-node case raised', type(ex).__name__, str(ex)[:200], traceback.format_exc()[-300:]))
+        return {'viol': list(V), 'evals': V.evals, 'nontrivial': False}
+    key = lambda v: (type(v).__name__, repr(v))
+    if spec['updater'] == 'log':
+        V.check('collision_all_applied', sorted(map(key, got)) == sorted(map(key, spec['values'])),
+                lambda: ('%d port variables wired to one node (%s): the node logged %r, the updates were %r' % (
+                    n, spec['form'], got, spec['values'])))
+    else:
+        # set: the node holds one of the updates (which one is applied last is not specified), not the initial value
+        V.check('collision_all_applied', key(got) in [key(v) for v in spec['values']],
+                lambda: ('%d set-updates to one node (%s): node holds %r, updates in port order were %r' % (
+                    n, spec['form'], got, spec['values'])))
+    return {'viol': list(V), 'evals': V.evals, 'nontrivial': any(not v for v in spec['values']),
+            'classes': ['shared_node_' + spec['form']], 'summary': {'values': len(spec['values'])}}
 
 
 def gen(r, tier, i):
+    if r.random() < 0.08:
+        return gen_shared(r)
     case = topo.gen_case(r, maxports=4 if tier == 'quick' else 5)
     case['run_twice'] = r.random() < 0.3
     case['share_schema'] = r.random() < 0.5
@@ -81,6 +155,8 @@ def expand(ref, tree):
 
 
 def run(spec):
+    if spec.get('family') == 'shared_node':
+        return run_shared(spec)
     from vivarium.core.engine import Engine
     from vmon.sensors import plain_values
     V = Viol()
